@@ -25,12 +25,25 @@ def loader_loops(ctx):
     return f, outer[0], inner[0]
 
 
-def yield_counter(f):
-    """the per-strategy yield counter(s) of the loader: locals created as a Counter() that the function returns"""
+def yield_counter(f, ctx=None):
+    """the per-strategy yield counter(s) of the loader: locals created as a Counter() that the function returns.  The reported counter
+    must be created in the call itself (a counter that outlives the call reports the records of earlier calls as well)."""
     rets = {x for t in returned_names(f) for x in t}
     c = [n for n in assigned_names(f, lambda v: is_call_to(v, 'Counter', 'defaultdict')) if n in rets]
     if not c:
+        # the second element of the returned pair is the counter; it is decided (not refused) when it is a local bound to something
+        # that is not a fresh counter
+        seconds = {t[1] for t in returned_names(f) if len(t) >= 2}
+        for n in sorted(seconds):
+            defs = [s_ for s_ in walk_no_nested(f) if isinstance(s_, ast.Assign) and len(s_.targets) == 1 and isinstance(s_.targets[0], ast.Name) and s_.targets[0].id == n]
+            if defs and ctx is not None:
+                ctx.emit('C01-R1', False, LOADER, defs[0], f'the reported per-strategy counter `{n}` is bound to `{src(defs[0].value)[:60]}`, not to a counter created in this call: '
+                         'the reported counts include records of earlier calls', key='counter-fresh', what='loader.demultiplex: reported yield counter is not created per call')
+                return {n}
         raise AnalysisError('loader.demultiplex: no returned Counter() local (the per-strategy yield counter) found')
+    if ctx is not None:
+        multi = [n for n in c if len([s_ for s_ in walk_no_nested(f) if isinstance(s_, ast.Assign) and any(isinstance(t, ast.Name) and t.id == n for t in s_.targets)]) != 1]
+        ctx.emit('C01-R1', not multi, LOADER, f, 'the reported per-strategy counter is a Counter created once in the call', key='counter-fresh')
     return set(c)
 
 
@@ -111,7 +124,7 @@ def r1(ctx):
         if need not in params:
             raise AnalysisError(f'loader.demultiplex has no parameter {need}')
     strat = inner.target.id if isinstance(inner.target, ast.Name) else None
-    ycount = yield_counter(f)
+    ycount = yield_counter(f, ctx)
 
     def may_raise(kind, a):
         if kind in ('with_exit', 'except') or isinstance(a, ast.Raise):
